@@ -162,7 +162,7 @@ impl Property for C06 {
                 let mut q = sqlgen::gen_select(rng, &cfg, false);
                 q.join = Some(sqlgen::gen_join(rng));
                 q.projections = vec![rng.pick(&["t.k, u.m, w", "*", "t.n, u.k"]).to_string()];
-                q.filter = None;
+                q.filter = if rng.chance(1, 3) { Some(sqlgen::gen_filter_joined(rng)) } else { None };
                 q
             }
             "join_aggregate" => {
